@@ -1,0 +1,53 @@
+//go:build verif
+
+package elgamal
+
+// Decoder schema (property C12), instantiated mechanically by `govc gen-decoders`: a decoder returns nil only if
+// the validating constructor, applied to the decoded fields, returned a nil error. Constructors marked
+// "assumed / purefn" are only assumed to be deterministic functions of their arguments.
+
+//@ func (*Ciphertext).UnmarshalCBOR
+//@   property C12
+//@   let dto = as(res(serde.UnmarshalCBOR(data), 0), *ciphertextDTO)
+//@   ensures err == nil ==> res(NewCiphertext(dto.V.Components()[0], dto.V.Components()[1]), 1) == nil
+
+//@ func (*Nonce).UnmarshalCBOR
+//@   property C12
+//@   let dto = as(res(serde.UnmarshalCBOR(data), 0), *nonceDTO)
+//@   ensures err == nil ==> res(NewNonce(dto.V), 1) == nil
+
+//@ func (*Plaintext).UnmarshalCBOR
+//@   property C12
+//@   let dto = as(res(serde.UnmarshalCBOR(data), 0), *plaintextDTO)
+//@   ensures err == nil ==> res(NewPlaintext(dto.V), 1) == nil
+
+//@ func (*PublicKey).UnmarshalCBOR
+//@   property C12
+//@   let dto = as(res(serde.UnmarshalCBOR(data), 0), *publicKeyDTO)
+//@   ensures err == nil ==> res(NewPublicKey(dto.H), 1) == nil
+
+//@ func (*SecretKey).UnmarshalCBOR
+//@   property C12
+//@   let dto = as(res(serde.UnmarshalCBOR(data), 0), *secretKeyDTO)
+//@   ensures err == nil ==> res(NewSecretKey(dto.G, dto.A), 1) == nil
+
+//@ func NewCiphertext
+//@   assumed
+//@   purefn
+
+//@ func NewNonce
+//@   assumed
+//@   purefn
+
+//@ func NewPlaintext
+//@   assumed
+//@   purefn
+
+//@ func NewPublicKey
+//@   assumed
+//@   purefn
+
+//@ func NewSecretKey
+//@   assumed
+//@   purefn
+
